@@ -86,7 +86,8 @@ OthersA == { <<"t1", None, <<>>, None, "plain">>,
              <<"t1", "fail", <<"r">>, "1", "file">>,
              <<None, "uxsuccess", <<"r", "s">>, None, "plain">>,
              <<"t2", "success", <<>>, "1", "eof">>,
-             <<"t2", "inprogress", <<"c">>, None, "file">> }
+             <<"t2", "inprogress", <<"c">>, None, "file">>,
+             <<"t1", "success", <<"e">>, None, "plain">> }      \* "e": an EMPTY route-code string (not None)
 EventsA == { Ev(o[1], o[2], t[1], t[2], o[3], o[4], o[5]) : t \in TagsA, o \in OthersA }
 
 \* every tag form x two payload profiles, for the larger exhaustive tree set
@@ -99,7 +100,8 @@ EventsB == { Ev("t1", "inprogress", "none", {}, <<>>, None, "plain"),
              Ev("t2", "uxsuccess", "set", {"a", "x"}, <<>>, None, "plain"),
              Ev("t2", "success", "fset", {"a"}, <<"c">>, "1", "eof"),
              Ev(None, None, "set", {}, <<"r", "s">>, None, "file"),
-             Ev("t1", "unknown", "fset", {}, <<>>, "1", "plain") }
+             Ev("t1", "unknown", "fset", {}, <<>>, "1", "plain"),
+             Ev("t2", "skip", "none", {}, <<"e">>, None, "plain") }
 
 \* all statuses x all tag forms, for simulation / random trees
 EventsC == { Ev(i, s, t[1], t[2], r, ts, "plain") :
